@@ -211,7 +211,7 @@ def run(tier):
             env.update({"VP_FAIL_CLASS": cls, "VP_FAIL_AT": str(k), "VP_FAIL_ERRNO": str(errno)})
             if kind == "EINTR_THEN_ERR":
                 env["VP_FAIL_EINTR_FIRST"] = "1"
-        r = c.run(tools, env, "%s%d_%s" % (cls, k, kind))
+        r = c.run(tools, env, "%s%d_%s%d" % (cls, k, kind, errno))
         r.update({"tool": c.name, "class": CLASSNAME[cls], "kind": kind, "k": k, "errno": errno, "packer": c.packer,
                   "outSame": r["digest"] == c.base["digest"]})
         return r
